@@ -287,7 +287,6 @@ func (x *Explorer) slice(c *Term) []*Term {
 		vars[v] = true
 	}
 	used := make([]bool, len(x.pc))
-	var out []*Term
 	for changed := true; changed; {
 		changed = false
 		for i, p := range x.pc {
@@ -303,7 +302,6 @@ func (x *Explorer) slice(c *Term) []*Term {
 			}
 			if hit {
 				used[i] = true
-				out = append(out, p)
 				for _, v := range p.vars {
 					if !vars[v] {
 						vars[v] = true
@@ -311,6 +309,13 @@ func (x *Explorer) slice(c *Term) []*Term {
 					}
 				}
 			}
+		}
+	}
+	// in path-condition order (the integer encoding's overflow argument relies on it)
+	var out []*Term
+	for i, p := range x.pc {
+		if used[i] {
+			out = append(out, p)
 		}
 	}
 	return out
